@@ -19,6 +19,27 @@ int vnaproperty_delete(vnaproperty_t **rootptr, const char *format, ...)
 #define SCENARIO 1
 #endif
 
+/* a calibration with zero frequencies is accepted by vnacal_new_alloc: its (empty) frequency vector must not be read */
+void h_zero_frequencies(void)
+{
+    vnacal_t *vcp;
+    vnacal_new_t *vnp;
+    double *fv = malloc(0);
+    int rc;
+
+    ghost_err_reset();
+    vcp = vnacal_create(verif_error_fn, NULL);
+    ASSUME(vcp != NULL);
+    vnp = vnacal_new_alloc(vcp, VNACAL_T8, 2, 2, 0);
+    ASSUME(vnp != NULL);
+    rc = vnacal_new_set_frequency_vector(vnp, fv);
+    REACH("set_frequency_vector returned");
+    CHECK(rc == 0 || rc == -1, "returns 0 or -1");
+    free(fv);
+    vnacal_new_free(vnp);
+    vnacal_free(vcp);
+}
+
 void h_add_scenario(void)
 {
     IN_ARR(double, mv, 4);
